@@ -22,7 +22,7 @@ def index_values(draw, code, rows):
     """Index column values (as Python numbers) of a given pattern, inside the dtype's range."""
     dt = np.dtype(code)
     pattern = draw(st.sampled_from(['uniform', 'uniform', 'uniform-dec', 'nearly', 'monotone', 'monotone-dec',
-                                    'constant', 'random', 'outside-tol', 'nan-hides-turn']))
+                                    'constant', 'random', 'outside-tol', 'nan-hides-turn', 'tiny-steps']))
     if dt.kind in 'iu':
         info = np.iinfo(dt)
         lo, hi = int(info.min), int(info.max)
@@ -74,6 +74,17 @@ def index_values(draw, code, rows):
             vals = vals[::-1]
     elif pattern == 'constant':
         vals = [start] * rows
+    elif pattern == 'tiny-steps' and rows >= 3:
+        # clearly irregular steps of a very small absolute size (a time index in seconds moving by nanoseconds): the
+        # documented tolerance is relative, so this is as non-uniform as the same pattern at any other scale
+        scale = draw(st.sampled_from([1e-9, 1e-10, 1e-12, 1e-8]))
+        sign = draw(st.sampled_from([1.0, -1.0]))
+        acc = draw(st.sampled_from([0.0, 1.0, 1e-3]))
+        vals = []
+        for i in range(rows):
+            vals.append(acc)
+            acc += sign * scale * draw(st.sampled_from([1, 3, 1, 4, 2, 6]))
+        return vals, 'tiny-steps'
     elif pattern == 'nan-hides-turn' and rows >= 4:
         # rising (or falling) values, a NaN, then a restart on the other side: every finite difference has one sign, yet
         # the finite values are not monotone
